@@ -43,7 +43,9 @@ m = {
         {"name": "verus-extract", "path": "tools/vextract.py + tools/vrun.py", "serves_properties": sorted(pid for pid in claimed if any(cfg["units"][u["unit"]]["backend"] == "verus" for u in cfg["properties"][pid]["units"])),
          "kind_free_text": "Verus 0.2026.09.13 on function text extracted verbatim from /repo (unbounded deductive proofs, Z3)"},
         {"name": "kani-inject", "path": "tools/kinject.py + tools/krun.py", "serves_properties": sorted(pid for pid in claimed if any(cfg["units"][u["unit"]]["backend"] == "kani" for u in cfg["properties"][pid]["units"])),
-         "kind_free_text": "Kani 0.68 / CBMC 6.11 function contracts and contract harnesses injected into a scratch copy of the workspace"}],
+         "kind_free_text": "Kani 0.68 / CBMC 6.11 function contracts and contract harnesses injected into a scratch copy of the workspace"},
+        {"name": "native-enumeration", "path": "tools/check.py (run_native_unit) + contracts/native/*.rs", "serves_properties": sorted(pid for pid in claimed if any(cfg["units"][u["unit"]]["backend"] == "native" for u in cfg["properties"][pid]["units"])),
+         "kind_free_text": "bounded stand-in for code neither verifier can execute: exhaustive enumeration of a stated finite domain through the real public API in a scratch copy (release build; one unit under Miri in the thorough tier); labelled bounded, never counted as proved"}],
     "checks": checks,
     "not_applicable": nal,
     "notes": "Exit codes of ./check: 0 pass, 1 VIOLATION, 2 undecided (tool limit / lost anchor / vacuity guard). Known findings: KNOWN_FINDINGS.txt. Formats: contracts/README.md.",
